@@ -92,6 +92,8 @@ type server struct {
 	// through Reset().
 	engine engine
 	direct *directServer
+	// skipReset (engNoReset): bit k%16 set = the pool forgets Reset() before the k-th use of the value
+	skipReset uint16
 	opaques map[string]*opaqueRec
 	tokens  map[string]*tokenRec
 
@@ -150,6 +152,8 @@ type srvConf struct {
 	// secrets_test.go; nil selects the classic 32-byte keys ownSecret(i) / sharedSecret().
 	hmac   []byte
 	engine engine
+	// skipReset: see server.skipReset
+	skipReset uint16
 }
 
 // twoServers is the classic deployment: two unrelated instances.
@@ -223,7 +227,7 @@ func newWorld(f failer, conf []srvConf, idents []*keys.Identity) *world {
 				rw.WriteHeader(http.StatusOK)
 			},
 		}
-		s.engine = conf[i].engine
+		s.engine, s.skipReset = conf[i].engine, conf[i].skipReset
 		if s.engine != engHTTP {
 			s.direct = newDirectServer(s, provided)
 		}
@@ -314,12 +318,34 @@ func (w *world) send(s *server, host string, sni string, authz *string, owner in
 	if h := rec.Header().Get("Authentication-Info"); h != "" {
 		res.info, res.rawInfo = parseParams(h), h
 	}
+	if s.direct != nil && s.direct.violation != "" && !res.panicked {
+		w.f.Fatalf("C19 server (%s): %s\n server=%d host=%q\n Authorization=%v\n given to the value before, since its last Reset: %q",
+			engineNames[s.engine], s.direct.violation, s.idx, host, authz, s.direct.prior)
+	}
 	if res.called {
 		hdr := ""
 		if authz != nil {
 			hdr = *authz
 		}
 		ok, how, detail := w.justify(s, host, hdr, res.peer, now, false)
+		unresetProof := false
+		if !ok && s.direct != nil && s.direct.unreset && s.direct.prior != "" {
+			// a value that was not reset is still at the same request: what it was given since its
+			// last Reset counts as carried (reuse_test.go, engNoReset)
+			ok, how, detail = w.justify(s, host, hdr+" , "+s.direct.prior, res.peer, now, false)
+			how += "+given-before-the-forgotten-Reset"
+			if !ok {
+				// The un-reset value also keeps the FIELDS of the state it verified before (opaqueState.Unmarshal
+				// decodes JSON into the struct it holds; absent fields keep their old values): the kind, peer and
+				// instant it goes by may come from different genuine states. Instants are therefore not judged
+				// for such a value - only that what it reports comes from state this server minted for that peer
+				// resp. from a signature of that peer, given to it since its last Reset.
+				ok, how, detail = w.justify(s, host, hdr+" , "+s.direct.prior, res.peer, time.Time{}, false)
+				how += "+given-before-the-forgotten-Reset+instants-not-judged"
+			}
+			detail += fmt.Sprintf("\n the value was not Reset; given to it before, since its last Reset: %q", s.direct.prior)
+			unresetProof = true
+		}
 		if !ok {
 			if n, ok := w.reenc[res.peer]; ok {
 				detail += "\n NOTE: " + n
@@ -329,7 +355,7 @@ func (w *world) send(s *server, host string, sni string, authz *string, owner in
 		}
 		// Values whose quoting was altered are not carried by the request (syntax_test.go): the
 		// proof must be complete without them.
-		if carried, altered := carriedText(hdr); altered {
+		if carried, altered := carriedText(hdr); altered && !unresetProof {
 			if ok2, _, detail2 := w.justify(s, host, carried, res.peer, now, true); !ok2 {
 				w.f.Fatalf("C19 server: Next called with peer %s (key type %s) on the strength of an ALTERED parameter value: the proof is only there if bytes that follow a value's closing quote, unbalanced or doubled quotes are ignored.\n server=%d host=%q time=%s\n Authorization=%q\n what the header carries in intact parameters: %q\n %s",
 					res.peer, w.typeOf(res.peer), s.idx, host, now.UTC().Format(time.RFC3339Nano), hdr, carried, detail2)
@@ -615,9 +641,10 @@ func (w *world) honestEnc(ci int, s *server, host string, clientInitiated bool, 
 	// A re-used state machine (reuse_test.go) that refuses an honest request is not judged here
 	// (completeness is no part of the property); the session ends, the case goes on, and the
 	// label shows that it happened.
-	lenient := variant || s.engine == engReused
+	reusedValue := s.engine == engReused || s.engine == engNoReset
+	lenient := variant || reusedValue
 	note := func(out string) {
-		if s.engine == engReused && !variant && out != "accepted" {
+		if reusedValue && !variant && out != "accepted" {
 			w.notes = append(w.notes, "reused-engine:honest-session-"+out)
 		}
 		if variant {
@@ -668,7 +695,7 @@ func (w *world) honestEnc(ci int, s *server, host string, clientInitiated bool, 
 		ps = []param{{"public-key", b64(cpub)}, {"challenge-server", chal}, {"sig", b64(sig)}, {"opaque", op}}
 	}
 	r := w.sendParams(s, host, ps, ci)
-	if lenient && !r.called {
+	if lenient && (!r.called || s.engine == engNoReset && r.peer != c.ID) {
 		note("refused-at-step-2")
 		return steps
 	}
@@ -684,7 +711,7 @@ func (w *world) honestEnc(ci int, s *server, host string, clientInitiated bool, 
 	}
 	ps = []param{{"bearer", bearer}}
 	r3 := w.sendParams(s, host, ps, ci)
-	if s.engine == engReused && !r3.called {
+	if reusedValue && (!r3.called || s.engine == engNoReset && r3.peer != c.ID) {
 		note("refused-at-step-3")
 		return steps
 	}
